@@ -37,6 +37,7 @@ pub struct IoStats {
     pub short_writes: u64,
     pub write_eintr: u64,
     pub enospc: u64,
+    pub full_zero: u64,
     pub flush_errors: u64,
     pub recorder_steps: u64,
     pub drops: u64,
@@ -442,7 +443,11 @@ pub struct SimSink {
     pub stats: IoStats,
     pub failed: bool,
     pub interrupted_returned: bool,
+    zero_writes: u32,
 }
+
+/// a writer may look at Ok(0) a few times (retry loops); past this it is not making progress
+pub const ZERO_WRITE_LIMIT: u32 = 64;
 
 impl SimSink {
     pub fn new(spec: &SinkSpec) -> Self {
@@ -455,6 +460,7 @@ impl SimSink {
             stats: IoStats::default(),
             failed: false,
             interrupted_returned: false,
+            zero_writes: 0,
         }
     }
 }
@@ -481,6 +487,15 @@ impl Write for SimSink {
                 self.stats.enospc += 1;
                 self.failed = true;
                 self.digest = mix(self.digest, 0xE2);
+                if self.spec.full_zero {
+                    // a fixed-size buffer: "wrote nothing", for ever. A writer that keeps asking makes no progress.
+                    self.zero_writes += 1;
+                    self.stats.full_zero += 1;
+                    if self.zero_writes > ZERO_WRITE_LIMIT {
+                        std::panic::resume_unwind(Box::new(NoProgress(format!("writer called write() {} times in a row on a full sink that returns Ok(0)", self.zero_writes))));
+                    }
+                    return Ok(0);
+                }
                 return Err(io::Error::new(io::ErrorKind::Other, "sim: ENOSPC"));
             }
             max = max.min(room);
